@@ -16,7 +16,7 @@ import traceback
 REPO = os.environ.get('SA_REPO', '/repo')
 PKG = os.path.join(REPO, 'lib', 'debian')
 VERIF = os.path.dirname(os.path.dirname(os.path.abspath(__file__)))
-EVIDENCE_DIR = os.path.join(VERIF, 'evidence')
+EVIDENCE_DIR = os.environ.get('SA_EVIDENCE') or os.path.join(VERIF, 'evidence')
 KNOWN_FINDINGS = os.path.join(VERIF, 'known_findings.txt')
 
 RE_FLAGS = {'IGNORECASE': re.I, 'I': re.I, 'VERBOSE': re.X, 'X': re.X, 'MULTILINE': re.M,
@@ -527,7 +527,7 @@ def finish(rep):
         code = 2
         for e in rep.errors:
             print('ANALYSIS-ERROR property=%s %s' % (pid, e))
-    if new and not rep.errors:
+    if new:
         code = 1
     replay_paths = []
     for n, v in enumerate(new):
@@ -537,10 +537,7 @@ def finish(rep):
                            message=v['msg'], detail=v['detail'], tier=rep.tier), f, indent=1, default=str)
         replay_paths.append(path)
         print('FAIL %s %s%s: %s' % (v['rule'], v['site'], (' (%s)' % v['where']) if v['where'] else '', v['msg']))
-        if not rep.errors:
-            print('VIOLATION property=%s replay=%s' % (pid, path))
-        else:
-            print('UNCONFIRMED (analysis errors present) property=%s rule=%s replay=%s' % (pid, v['rule'], path))
+        print('VIOLATION property=%s replay=%s' % (pid, path))
     wall = time.time() - rep.t0
     samples = []
     seen_rules = set()
